@@ -89,8 +89,29 @@ def detect(name, tier="quick", checks=None):
     return 0
 
 
+def detectall(tier="quick"):
+    """every seeded change against the check of its own property; prints one line per change"""
+    import glob
+    missed = []
+    for mp in sorted(glob.glob(os.path.join(SEEDED, "*", "meta.json"))):
+        name = os.path.basename(os.path.dirname(mp))
+        detect(name, tier)
+        m = json.load(open(mp))
+        r = m["detection"].get("%s/%s" % (m["property"], tier), {})
+        viol = r.get("violations", [])
+        kind = "MISSED" if r.get("rc") != 1 or not viol else (
+            "failing-input" if any("no-failing-input-found" not in v for v in viol) else "broken-tie-only")
+        if kind != "failing-input":
+            missed.append((name, kind))
+        print("SEED %s %s" % (name, kind), flush=True)
+    print("SUMMARY not caught with a failing input:", missed)
+
+
 if __name__ == "__main__":
     a = sys.argv[1:]
+    if a[0] == "detectall":
+        detectall(a[1] if len(a) > 1 else "quick")
+        sys.exit(0)
     if a[0] == "collect":
         collect(*a[1:6])
     elif a[0] == "detect":
